@@ -7,21 +7,21 @@ TB = ("Trusted: Kani 0.68 MIR->GOTO translation, CBMC 6.11 + CaDiCaL, Kani's mod
       "`reusable!` thread-local buffers (leaked global RefCell), dev-profile semantics, the hand-written reference models in "
       "/verif/harness. Every harness bound is listed in the evidence file; behaviour outside the bounds is outside the claim.")
 CLAIMED = {
- "C01": ("Lossless coding decided as a chain of function contracts, each checked by CBMC on the real function over all values inside its bound: Rice split/zig-zag invertible (complete), fixed-predictor residuals equal the RFC predictors from dirty scratch buffers, quantised-LPC residual equals the RFC formula on both integer paths (under the stated 32-bit-residual assumption), residual assembly reproduces every error value, and every subframe writer emits exactly the RFC 9639 bit layout (reference writer). The step from the links to whole 4096-sample blocks is an argument in DESIGN.md, not a solver result; the float analysis front end and frames with subframes end-to-end are outside the bound.", "DESIGN.md sections 5 (C01), 9"),
- "C02": ("Header code spaces decided over their whole value space in single queries (every block size 1..65535, every sample rate < 2^20, every number < 2^36 in canonical UTF-8 form, sample-size and channel codes), table-driven CRC-8/CRC-16 kernels equal the bitwise RFC reference, the real FrameHeader::write / Frame::write / Stream::write glue on concrete-shaped headers decoded by an RFC reference decoder, partition-order limits for all block sizes. Symbolic whole-header writes are beyond CBMC (measured), hence the per-field decomposition.", "DESIGN.md sections 5 (C02), 9"),
+ "C01": ("Lossless coding decided as a chain of function contracts, each checked by CBMC on the real function over all values inside its bound: Rice split/zig-zag invertible (complete), fixed-predictor residuals equal the RFC predictors from dirty scratch buffers, quantised-LPC residual equals the RFC formula on both integer paths (under the stated 32-bit-residual assumption), residual assembly reproduces every error value, and every subframe writer emits exactly the RFC 9639 bit layout (reference writer). The step from the links to whole 4096-sample blocks is an argument in DESIGN.md, not a solver result; round 2 adds the real per-channel dispatch of encode_frame_impl, the real mid/side transform of try_stereo_coding (RFC-invertible for every 24-bit pair), the recombination of stereo frames, the integer post-conditions of coefficient quantisation (shift 0..=15, coefficients fit the precision) and the library's own decoder (Decode for LPC/fixed/stereo frames) against the RFC reconstruction. The float analysis front end and whole frames with real subframes end-to-end are outside the bound.", "DESIGN.md sections 5 (C01), 9"),
+ "C02": ("Header code spaces decided over their whole value space in single queries (every block size 1..65535, every sample rate < 2^20, every number < 2^36 in canonical UTF-8 form, sample-size and channel codes), table-driven CRC-8/CRC-16 kernels equal the bitwise RFC reference, the real FrameHeader::write / Frame::write / Stream::write glue on concrete-shaped headers decoded by an RFC reference decoder, partition-order limits for all block sizes, Rice parameters never reach the escape code (minimiser lemma), quantised LPC parameters fit the 4-bit precision / 5-bit non-negative shift fields. Symbolic whole-header writes are beyond CBMC (measured), hence the per-field decomposition.", "DESIGN.md sections 5 (C02), 9"),
  "C03": ("What reaches MD5 is decided by recording the padded message block at the (stubbed) compression function: integer fills, packed-byte fills and the reference little-endian serialisation give byte-identical blocks for all sample values (several formats); counters and empty input; STREAMINFO layout read back field by field. The thread interleavings of the asynchronous hashing thread are NOT covered (Kani has no thread model); the claim is for inputs and configurations only.", "DESIGN.md sections 5 (C03), 6, 9"),
- "C04": ("One accumulation step of StreamInfo::update_frame_info from an arbitrary state (all block-size codes, frame sizes) plus the real single-thread encode loop on short inputs with symbolic sample values (final short block, inputs shorter than a block, exact multiples) checked against the RFC 9639 section 8.2 bounds. Input lengths are concrete per path (symbolic container lengths defeat CBMC); crate built without the `par` feature for this harness (Kani crashes on thread code).", "DESIGN.md sections 5 (C04), 9"),
+ "C04": ("One accumulation step of StreamInfo::update_frame_info from an arbitrary state (all block-size codes, frame sizes) plus the real single-thread encode loop on short inputs with symbolic sample values (final short block and an input shorter than one block in the quick tier; more lengths incl. exact multiples and empty input in the thorough tier) checked against the RFC 9639 section 8.2 bounds. Input lengths are concrete per path (symbolic container lengths defeat CBMC); crate built without the `par` feature for this harness (Kani crashes on thread code).", "DESIGN.md sections 5 (C04), 9"),
  "C07": ("Exactness decided in one query over the entire 17-field configuration space (usize/bool/f32 incl. NaN/inf, both enum variants): verify() and into_verified() accept iff every field is in its documented range (literal numbers of the property). 'Accepted configurations never panic' is covered for the fields whose consumers are driven by other harnesses (C13 max parameter, C01 precision/shift, C10 window key); the float analysis is outside.", "DESIGN.md section 5 (C07)"),
- "C08": ("count_bits() == bits handed to a counting sink for every subframe kind with all field values symbolic (quotients over all of u32), cached residual sums exact on both sides of the 2^32 switch, header bit-count formula over the whole header space, STREAMINFO/metadata/stream/frame(header+footer) writes on a recording sink before and after bitstream precomputation. Frames containing subframes are outside the bound (Vec<SubFrame> defeats CBMC); MemSink length accounting is C11.", "DESIGN.md sections 5 (C08), 9"),
- "C09": ("The selection logic that bounds the frame size (encode_subframe, try_stereo_coding) is run with the candidate producers stubbed by subframes of ARBITRARY size, so the bound is decided for every estimator/order-selection behaviour and every switch combination; a solver failure is confirmed by a native property-level oracle through the public API. The stereo harness is thorough-tier only (slow).", "DESIGN.md section 5 (C09)"),
- "C10": ("Per scratch buffer, one call from an arbitrary previous buffer state must give the argument-determined result: fixed-predictor error buffers, quantised-LPC error buffer, Rice parameter finder, frame buffer refill, and injectivity of the window-cache key over all accepted alphas (a collision is confirmed natively by encoding on a fresh thread vs. after the colliding call). Cross-thread sequences are outside.", "DESIGN.md section 5 (C10)"),
+ "C08": ("count_bits() == bits handed to a counting sink for every subframe kind with all field values symbolic (quotients over all of u32), cached residual sums exact on both sides of the 2^32 switch, header bit-count formula over the whole header space, real header writes with canonical and non-canonical (parser-produced) codes, STREAMINFO/metadata/stream/frame(header+footer) writes on a recording sink before and after bitstream precomputation. Frames containing subframes are outside the bound (Vec<SubFrame> defeats CBMC); MemSink length accounting is C11.", "DESIGN.md sections 5 (C08), 9"),
+ "C09": ("The selection logic that bounds the frame size (encode_subframe, try_stereo_coding) is run with the candidate producers stubbed by subframes of ARBITRARY size, so the bound is decided for every estimator/order-selection behaviour and every switch combination; a solver failure is confirmed by a native property-level oracle through the public API. Round 2: the stereo choice is decided on the real try_stereo_coding cut at encode_frame_impl / recombine_stereo_frame (arbitrary subframe sizes, every switch combination: the chosen assignment is the minimum and never above left+right), and the recombination emits the pair of subframes the assignment names.", "DESIGN.md section 5 (C09)"),
+ "C10": ("Per scratch buffer, one call from an arbitrary previous buffer state must give the argument-determined result: fixed-predictor error buffers, quantised-LPC error buffer, Rice parameter finder, frame buffer refill, and injectivity of the window-cache key over all accepted alphas (a collision is confirmed natively by encoding on a fresh thread vs. after the colliding call). Round 2 adds short real histories: header/frame writes after writes that failed part-way or were longer (CRC scratch sinks), a shorter byte fill after a longer one (conversion scratch). Cross-thread sequences are outside.", "DESIGN.md section 5 (C10)"),
  "C11": ("One-step lemmas from an arbitrary valid sink state (0..=2 elements, every bit offset, arbitrary content satisfying the representation invariant) for every operation x operand width on MemSink<u8> and MemSink<u64>, each compared with an independent 128-bit-window model by CBMC over all values; byte export; constructors; default trait methods on a minimal user sink. By induction over the invariant this covers every finite sequence of sink operations; the induction step itself is an argument in DESIGN.md, the solver decides each step.", "DESIGN.md section 5 (C11), 4.2"),
  "C12": ("A user sink failing on its k-th operation, k symbolic over every operation of the write, for frame header, metadata block, STREAMINFO, constant/verbatim/fixed subframes with residual, frame (header+footer, direct and precomputed) and stream: the write returns Err(Sink), never panics, and the accepted bits are a prefix of the full bitstream. Frames containing subframes are outside the bound.", "DESIGN.md sections 5 (C12), 9"),
  "C13": ("Contract chain on the real functions: from_errors lanes are the exact cost or saturated (all error values), merge saturates, minimizer is an admissible argmin, eval/merge over table slices, the search loop of find() over arbitrary tables returns the minimum over all partition orders, finest_partition_order defines the search space for every block size. Composition to arbitrary blocks is an argument in DESIGN.md; from_errors for partitions longer than the checked lengths is covered by the uniform chunk structure only.", "DESIGN.md section 5 (C13)"),
- "C14": ("For each channel-count specialisation and each bytes-per-sample converter: byte fill and integer fill of the sign-extended reference leave identical channel slices and fill level from a dirty buffer, for all byte values (fill lengths 0..3 in a 32-sample buffer); identical MD5 input (C03 harness). simd-nightly specialisations are not the pinned build.", "DESIGN.md section 5 (C14)"),
- "C15": ("Writer -> parser round trips on the real nom parsers with symbolic field values where CBMC can follow (STREAMINFO, constant, verbatim, residual; numbers via the utf8 lemma) and on concrete-shaped frame headers: all input consumed, fields equal, re-serialisation identical, bit counts equal. Whole frames/streams through the parser are outside the bound.", "DESIGN.md sections 5 (C15), 9"),
- "C16": ("No panic on arbitrary bytes for the sub-parsers CBMC can follow (utf8 number, block-size/sample-rate codes, subframe header, constant, verbatim, LPC parameters, unsupported LPC orders) and CRC-8/CRC-16 detect every burst of up to 8/16 bits at every position of a symbolic message, which is what the parser's CRC gate compares. Arbitrary bytes through the whole frame/stream parser are outside (measured infeasible).", "DESIGN.md sections 5 (C16), 9"),
- "C17": ("Free usize arguments (so every wrap-around value is in the query) for StreamInfo::new, FrameHeader::new, FrameBuf fills (every slice length / bytes-per-sample), Context fills: Err, or Ok with the argument genuinely in the domain and stored without truncation; never a panic.", "DESIGN.md section 5 (C17)"),
+ "C14": ("For each channel-count specialisation and each bytes-per-sample converter: byte fill and integer fill of the sign-extended reference leave identical channel slices and fill level from a dirty buffer, for all byte values (fill lengths 0..3 in a 32-sample buffer), and a shorter byte fill after a longer one on the same buffer; identical MD5 input (C03 harness). simd-nightly specialisations are not the pinned build.", "DESIGN.md section 5 (C14)"),
+ "C15": ("Writer -> parser round trips on the real nom parsers with symbolic field values where CBMC can follow (STREAMINFO, constant, verbatim, residual; numbers via the utf8 lemma) and on concrete-shaped frame headers: all input consumed, fields equal, re-serialisation identical, bit counts equal. Round 2 adds the decoding half: Decode for LPC and fixed subframes, residuals and the stereo un-mixing of frames equals the RFC 9639 reconstruction in 64-bit arithmetic (extreme coefficients, predictions beyond 32 bits), and headers with valid non-shortest codes re-serialise to the stored length. Whole frames/streams through the parser are outside the bound.", "DESIGN.md sections 5 (C15), 9"),
+ "C16": ("No panic on arbitrary bytes for the sub-parsers CBMC can follow (utf8 number, block-size/sample-rate codes, subframe header, constant, verbatim, LPC parameters, unsupported LPC orders, reserved fixed-predictor type codes) and CRC-8/CRC-16 detect every burst of up to 8/16 bits at every position of a symbolic message, which is what the parser's CRC gate compares. Arbitrary bytes through the whole frame/stream parser are outside (measured infeasible).", "DESIGN.md sections 5 (C16), 9"),
+ "C17": ("Free usize arguments (so every wrap-around value is in the query) for StreamInfo::new, FrameHeader::new, FrameBuf fills (every slice length / bytes-per-sample), Context fills, the sample-range check on partially filled multi-channel buffers, the frame-level entry point: Err, or Ok with the argument genuinely in the domain and stored without truncation; never a panic.", "DESIGN.md section 5 (C17)"),
  "C18": ("Every public constructor with free arguments (slices of concrete small lengths, all values): never panics; Ok implies verify() is Ok and the component satisfies the well-formedness predicate under which C08/C01 prove serialisation; setters; unknown metadata blocks written and checked byte by byte.", "DESIGN.md section 5 (C18)"),
 }
 NA = {
